@@ -1,3 +1,57 @@
-From Coq Require Import QArith.
-Example C04_placeholder : (1 + 1 == 2)%Q.
-Proof. reflexivity. Qed.
+(* PROPERTY C04: after curve.knot_insert(nodes) the knot vector is the sorted multiset union of the
+   old vector and nodes and the curve is the same function of u; a request outside the interval
+   (or pushing a multiplicity above degree+1) raises ValueError and leaves the curve unchanged.
+   Statements only; proofs in Proofs/InsertBasic.v (knot vector, refusals) and, for the
+   invariance of the function, Proofs/InsertSeq.v / Proofs/InsertList.v (Boehm). *)
+From Coq Require Import QArith List Bool Arith Permutation.
+From NurbsV Require Import Base.Res Base.QList Spec.KnotSpec Spec.BSpline Model.KV Model.Basis Model.CurveM Model.Ops Model.CurveOps.
+From NurbsV Require Import Proofs.Local Proofs.Boehm Proofs.InsertBasic.
+Import ListNotations.
+Open Scope Q_scope.
+
+(* the new knot vector: sorted, a permutation of old ++ nodes, well-formed *)
+Theorem C04_knots : forall c ns c',
+  c_knot_insert c ns = Ok c' ->
+  kvec (ckv c') = sortq (kvec (ckv c) ++ ns)
+  /\ sorted_b (kvec (ckv c')) = true
+  /\ Permutation (kvec (ckv c')) (kvec (ckv c) ++ ns)
+  /\ WF (kvec (ckv c')) (kdeg (ckv c')).
+Proof. exact c_knot_insert_knots. Qed.
+Print Assumptions C04_knots.
+
+Theorem C04_multiset : forall c ns c',
+  c_knot_insert c ns = Ok c' ->
+  forall x, count_q x (kvec (ckv c')) = (count_q x (kvec (ckv c)) + count_q x ns)%nat.
+Proof. exact c_knot_insert_counts. Qed.
+Print Assumptions C04_multiset.
+
+Theorem C04_mult_bound : forall c ns c',
+  c_knot_insert c ns = Ok c' ->
+  forall x, In x (kvec (ckv c')) -> (count_q x (kvec (ckv c')) <= kdeg (ckv c') + 1)%nat.
+Proof. exact c_knot_insert_mult_bound. Qed.
+Print Assumptions C04_mult_bound.
+
+Theorem C04_reject_outside : forall c ns,
+  kvalid (ckv c) ns = false -> c_knot_insert c ns = Err ValueError.
+Proof. exact c_knot_insert_outside. Qed.
+Print Assumptions C04_reject_outside.
+
+(* Boehm's identity, every degree j and index i: the old basis function is the stated combination
+   of two new ones (the coefficients are exactly the entries of the model's insertion matrix). *)
+Theorem C04_boehm : forall (U : nat -> Q) (k : nat) (x : Q),
+  mono U -> U k <= x -> x < U (S k) ->
+  forall (s : nat) (u : Q), U s <= u -> u < U (S s) ->
+  forall j i,
+  Nloc U s j i u ==
+    alpha U k x j i * Nloc (ins U k x) (newspan U k x u s) j i u
+    + (1 - alpha U k x j (S i)) * Nloc (ins U k x) (newspan U k x u s) j (S i) u.
+Proof. exact boehm. Qed.
+Print Assumptions C04_boehm.
+
+(* non-vacuity: inserting [1/3; 1/3; 0] into a degree-2 curve on [-1,-1,-1,0,1/3,1,1,1] succeeds *)
+Example C04_nonvacuous :
+  exists c', c_knot_insert
+     (mkcurve (mkkv [-1; -1; -1; 0; 1#3; 1; 1; 1] 2) (Some [[0]; [1]; [3]; [2]; [1#2]]) None)
+     [1#3; 1#3; 0] = Ok c'
+  /\ kvec (ckv c') = [-1; -1; -1; 0; 0; 1#3; 1#3; 1#3; 1; 1; 1].
+Proof. eexists. split; vm_compute; reflexivity. Qed.
